@@ -343,7 +343,10 @@ func trimStack(st string) string {
 // and is not the one chosen, dispatch waits until from is resumed.
 func (s *Sched) dispatch(from *G) {
 	en := s.enabled[:0]
-	if from != nil && from.state == gRunnable {
+	// a goroutine that yields (runtime.Gosched, time.Sleep, polling loops) goes to the end of the
+	// canonical order, so that waiting loops make progress under the default schedule
+	yielding := from != nil && from.state == gRunnable && from.kind == OpYield && !from.woken
+	if from != nil && from.state == gRunnable && !yielding {
 		en = append(en, from)
 	}
 	if s.opt.Chooser == nil && len(en) == 1 {
@@ -356,6 +359,9 @@ func (s *Sched) dispatch(from *G) {
 					break
 				}
 			}
+		}
+		if yielding {
+			en = append(en, from)
 		}
 	}
 	s.enabled = en
